@@ -312,7 +312,7 @@ def namespaces_of(t, acc=None):
     return acc
 
 
-def serialise(t, prefixes, default_ns=None, seps=None, extra_decls=(), decl_order=None, prolog=True, root_extra=u''):
+def serialise(t, prefixes, default_ns=None, seps=None, extra_decls=(), decl_order=None, prolog=True, root_extra=u'', root_first=u'', eq=u'='):
     """tree description -> bytes.
     prefixes: {namespace: prefix} for every namespace in the tree (xml namespace implied);
     default_ns: elements of this namespace are written without prefix (xmlns="..." on the root);
@@ -355,11 +355,12 @@ def serialise(t, prefixes, default_ns=None, seps=None, extra_decls=(), decl_orde
         tag = qn(n[1], n[2], False)
         out.append(u'<' + tag)
         if root:
+            out.append(root_first)
             for i, (dn, ns) in enumerate(decls):
-                out.append(seps[i % len(seps)] + dn + u'=' + attr_quote(ns))
+                out.append(seps[i % len(seps)] + dn + eq + attr_quote(ns))
             out.append(root_extra)
         for (ans, al, v) in n[3]:
-            out.append(u' ' + qn(ans, al, True) + u'=' + attr_quote(v))
+            out.append(u' ' + qn(ans, al, True) + (eq if root else u'=') + attr_quote(v))
         if n[4]:
             out.append(u'>')
             for k in n[4]:
@@ -452,23 +453,29 @@ SECTION_ORDER = ['meta', 'scripts', 'font-face-decls', 'settings', 'styles', 'au
 
 
 def unwire_sections(answer):
-    """driver answer `ok <name> <n> <tree>*n ...` -> {section: [trees]}"""
+    """driver answer `ok (<name> <k> (ns local value)^k <n> <tree>^n)*` -> {section: [trees], '@'+section: [attrs]}"""
     toks = answer.split()
     assert toks[0] == 'ok', answer[:200]
     toks = toks[1:]
     out = {}
     while toks:
         name = toks.pop(0)
+        k = int(toks.pop(0))
+        out['@' + name] = [(dec_str(toks.pop(0)), dec_str(toks.pop(0)), dec_str(toks.pop(0))) for _ in range(k)]
         n = int(toks.pop(0))
         out[name] = [X.unwire_tree(toks) for _ in range(n)]
     return out
 
 
 def loaded_sections(doc):
-    """the eight sections of a real document as lists of child descriptions (qname/attributes/childNodes/data)"""
+    """the eight sections of a real document: children as descriptions (qname/attributes/childNodes/data) under the
+    section name, the attributes of the section object itself under '@' + name"""
     m = {'meta': doc.meta, 'scripts': doc.scripts, 'font-face-decls': doc.fontfacedecls, 'settings': doc.settings,
          'styles': doc.styles, 'automatic-styles': doc.automaticstyles, 'master-styles': doc.masterstyles, 'body': doc.body}
-    return dict((k, [X.walk(c) for c in v.childNodes]) for k, v in m.items())
+    out = dict((k, [X.walk(c) for c in v.childNodes]) for k, v in m.items())
+    for k, v in m.items():
+        out['@' + k] = [((a[0] or u''), a[1], u'%s' % val) for a, val in v.attributes.items()]
+    return out
 
 
 # ------------------------------------------------------------------------------------------- correspondence with drv_load
@@ -591,9 +598,24 @@ def correspond_document(chk, drv, pkg, folder, real, case, rng=None):
         chk.corr_diff(case, 'loaded without exception', 'model: ' + ' '.join(errs), 'LoadParser model crashed on %r' % folder)
         return 'crash'
     for sec in SECTION_ORDER:
+        if model.get('@' + sec) != real.get('@' + sec):
+            chk.corr_diff(case, repr(real.get('@' + sec))[:300], repr(model.get('@' + sec))[:300],
+                          'attributes of the section object %s of %r after load (real vs model)' % (sec, folder or '/'))
+            return 'diff'
         if model.get(sec) != real.get(sec):
             a = ('E', u'', sec, [], real.get(sec) or []); b = ('E', u'', sec, [], model.get(sec) or [])
             d = diff(a, b)[:1] or [X.first_diff(a, b)]
             chk.corr_diff(case, repr(d)[:400], 'model differs', 'section %s of %r after load (real vs model)' % (sec, folder or '/'))
             return 'diff'
     return None
+
+
+def correspond_pyspace(chk, drv):
+    """the model's table of Python's \\s against the real `re` on EVERY code point"""
+    import re
+    rx = re.compile(u'\\s')
+    real = ['%x' % c for c in range(0x110000) if rx.match(chr(c))]
+    ans = drv.ask('spaces')
+    chk.corr(0x110000)
+    if ans != 'ok ' + ' '.join(real):
+        chk.corr_diff({'table': 'isPySpace'}, ' '.join(real), ans, 'code points matched by \\s (re, str pattern)')
